@@ -99,7 +99,19 @@ def check_temporaries(source: str, cse: bool, stats):
     for head, body in function_bodies(source):
         stats.inc("function_bodies_parsed")
         declared = []
+        # statements, not lines: a declaration may span several lines (ccode prints Piecewise / sign() as a
+        # multi-line conditional expression)
+        stmts, cur = [], ""
         for ln in body:
+            if ln.strip().startswith("//"):
+                continue
+            cur = (cur + " " + ln.strip()) if cur else ln
+            if ln.rstrip().endswith(";") or ln.rstrip().endswith("{") or ln.rstrip().endswith("}"):
+                stmts.append(cur)
+                cur = ""
+        if cur:
+            stmts.append(cur)
+        for ln in stmts:
             m = _DECL.match(ln)
             rhs_src = m.group(2) if m else (ln.split("=", 1)[1] if "=" in ln else ln)
             used = _TMP.findall(rhs_src)
